@@ -1,9 +1,269 @@
-"""C14 part 2 (whole-program format inference vs traced symbolic executions). Filled in with the tracing compiler."""
+"""
+C14 part 2 — whole-program format inference against traced symbolic executions.
+
+`FormatInfer.analyze(func, fn_fmt=FunctionFormat(caller context, argument formats))` runs concretely with the argument
+formats pinned to the exact domain of the symbolic arguments; the program is compiled by the tracing compiler
+(harness/tracer.py) and run by the real interpreter code on those arguments.  For every traced expression with an inferred
+bound, on every feasible path, the solver is asked for an argument vector *inside the analysed formats* whose value at that
+expression lies OUTSIDE the inferred format (membership by the set definition, computed from the abstract view
+prec / exp / bounds / special flags of the inferred format; value sets by equality with one of their members).
+"""
+from . import tv, corpus
+
+WITNESSES = ['prog-format-fact', 'prog-set-fact', 'prog-narrow-float-format']
+
+
+def _programs(tier):
+    return [p for p in corpus.P if 'no_analysis' not in p['tags'] and ('analysis' in p['tags'] or 'semantics' in p['tags'] or 'context' in p['tags'] or 'simplify' in p['tags'])]
 
 
 def tasks(tier, seed):
-    return []
+    ts = []
+    for p in _programs(tier):
+        for shape in tv.arg_shapes(p, tier):
+            if tier == 'quick' and sum(c[1] for c in shape if c[0] == 'list') > 2:
+                continue
+            ts.append(dict(kind='prog', name='prog/%s/%s' % (p['name'], '-'.join(str(c[-1]) if len(c) > 1 else 'r' for c in shape)), prog=p['name'], shape=[list(c) for c in shape],
+                           cost=sum(c[1] if c[0] == 'list' else 1 for c in shape)))
+    return ts
+
+
+def arg_formats(shape, CW):
+    """the exact domain of the symbolic arguments as formats: multiples of 2^-1 with |c| < 2^CW, both zeros"""
+    from fpy2 import RealFloat
+    from fpy2.analysis.format_infer.format import AbstractFormat
+    from fpy2.analysis.format_infer.analysis import ListFormat, SetFormat
+    from fractions import Fraction
+    real = AbstractFormat(CW, tv.EXP0, RealFloat(False, tv.EXP0, (1 << CW) - 1), has_neg_zero=True).format()
+    out = []
+    for c in shape:
+        if c[0] == 'real':
+            out.append(real)
+        elif c[0] == 'list':
+            out.append(ListFormat(real))
+        else:
+            out.append(AbstractFormat(float('inf'), 0, RealFloat.from_int(abs(c[1])) if c[1] else RealFloat.from_int(0)).format() if False else _int_format(c[1]))
+    return tuple(out)
+
+
+def _int_format(n):
+    from fpy2 import RealFloat
+    from fpy2.analysis.format_infer.format import AbstractFormat
+    b = RealFloat.from_int(max(abs(n), 1))
+    return AbstractFormat(float('inf'), 0, b).format()
+
+
+def analyse(f, shape, CW, C):
+    from fpy2.analysis import FormatInfer
+    from fpy2.analysis.format_infer.analysis import FunctionFormat
+    return FormatInfer.analyze(f.ast, fn_fmt=FunctionFormat(C, arg_formats(shape, CW), None))
+
+
+def abstract_view(fmt):
+    """(prec, exp, pos_bound Fraction|None, neg_bound Fraction|None (magnitude), has_nan, has_pinf, has_ninf, has_negzero) or None for the top / unabstractable"""
+    from fpy2.analysis.format_infer.format import AbstractFormat
+    from fpy2.analysis.format_infer.analysis import REAL_FORMAT
+    if fmt is REAL_FORMAT or fmt == REAL_FORMAT:
+        return None
+    try:
+        A = AbstractFormat.from_format(fmt)
+    except Exception:  # noqa
+        return None
+    def b(x):
+        return None if isinstance(x, float) else abs(x.as_rational())
+    return (None if isinstance(A.prec, float) else int(A.prec), None if isinstance(A.exp, float) else int(A.exp), b(A.pos_bound), b(A.neg_bound), A.has_nan, A.has_pos_inf, A.has_neg_inf, A.has_neg_zero)
+
+
+def member_term(v, view, engineW):
+    """z3 Bool / python bool: is the run-time number v (Float possibly with symbolic significand/sign, Fraction, int) in the format?"""
+    import z3
+    from fractions import Fraction
+    from fpy2 import Float
+    from pysym import summaries
+    from pysym.core import SymInt
+    from spec.rounding import is_member
+    import spec.dsl as dsl
+    prec, exp, pb, nb, hnan, hpinf, hninf, hnz = view
+    if isinstance(v, (int, Fraction)):
+        v = Float.from_rational(Fraction(v))
+    if v.isnan:
+        return bool(hnan)
+    if v.isinf:
+        return bool(hninf if v.s else hpinf)
+    v = summaries._as_float(v)
+    if type(v.exp) is SymInt:
+        raise NotImplementedError('symbolic exponent')
+    # scale: every quantity an integer multiple of 2^-K
+    K = max(0, -v.exp, -(exp if exp is not None else 0)) + 1
+    for q in (pb, nb):
+        if q is not None:
+            d = q.denominator
+            K = max(K, d.bit_length())
+    W = dsl.WO
+    c = v._real._c
+    ct = c.t if type(c) is SymInt else z3.BitVecVal(int(c), engineW)
+    mag = z3.ZeroExt(W - engineW, ct) << (v.exp + K) if W > engineW else ct << (v.exp + K)
+    neg = summaries._sbool(v)
+    n = None if exp is None else exp - 1
+    digits = z3.BoolVal(True) if (prec is None and n is None) else is_member(mag, prec, n, K)
+    inb = z3.BoolVal(True)
+    def sc(q):
+        return z3.BitVecVal(int(q * (1 << K)), W)
+    if pb is not None:
+        inb = z3.And(inb, z3.Or(neg, z3.ULE(mag, sc(pb))))
+    if nb is not None:
+        inb = z3.And(inb, z3.Or(z3.Not(neg), z3.ULE(mag, sc(nb))))
+    zero_ok = z3.Or(z3.Not(neg), z3.BoolVal(bool(hnz)))
+    return z3.simplify(z3.If(mag == 0, zero_ok, z3.And(digits, inb)))
+
+
+def _set_value(k):
+    """a SetValue as a number the comparison understands: Fraction(0) is +0, NEG_ZERO is -0, Special is an infinity / NaN"""
+    from fractions import Fraction
+    from fpy2 import Float
+    import fpy2.analysis.format_infer.analysis as FA
+    if isinstance(k, Fraction):
+        return k
+    if isinstance(k, FA.Special):
+        return {FA.Special.POS_INF: Float(isinf=True), FA.Special.NEG_INF: Float(isinf=True, s=True), FA.Special.NAN: Float(isnan=True)}[k]
+    if k is FA.NEG_ZERO or type(k).__name__ == 'NegZero':
+        return Float(s=True, exp=0, c=0)
+    return k
+
+
+class FormatChecker:
+    def __init__(self, info, report, cover, engineW, symbolic=True):
+        self.info = info; self.report = report; self.cover = cover; self.W = engineW; self.symbolic = symbolic
+
+    def check(self, bound, v, where):
+        from fpy2.analysis.format_infer.analysis import ListFormat, TupleFormat, SetFormat
+        from fractions import Fraction
+        from fpy2 import Float
+        if bound is None:
+            return
+        if isinstance(bound, ListFormat):
+            if isinstance(v, list):
+                for x in v:
+                    self.check(bound.elt, x, where + '[*]')
+            return
+        if isinstance(bound, TupleFormat):
+            if isinstance(v, tuple) and len(v) == len(bound.elts):
+                for b, x in zip(bound.elts, v):
+                    self.check(b, x, where + '.*')
+            return
+        if isinstance(v, bool) or not isinstance(v, (Float, Fraction, int)):
+            return
+        if isinstance(bound, SetFormat):
+            self.cover('prog-set-fact')
+            ok = False
+            import z3
+            terms = []
+            for k in bound.values:
+                k = _set_value(k)
+                try:
+                    t = tv.eqv(k, v) if self.symbolic else tv.conc_eq(k, v)
+                except Exception:  # noqa
+                    return
+                if t is True:
+                    ok = True; break
+                if t is not False:
+                    terms.append(t)
+            if ok is not True:
+                ok = z3.Or(*terms) if terms else False
+            self.report('set', ok, {'expr': where, 'inferred value set': [str(k) for k in list(bound.values)[:6]]})
+            return
+        view = abstract_view(bound)
+        if view is None:
+            return
+        self.cover('prog-format-fact')
+        if view[0] is not None:
+            self.cover('prog-narrow-float-format')
+        try:
+            ok = member_term(v, view, self.W)
+        except NotImplementedError:
+            return
+        import z3
+        if isinstance(ok, z3.ExprRef):
+            ok = True if z3.is_true(ok) else (False if z3.is_false(ok) else ok)
+        self.report('format', ok, {'expr': where, 'inferred format': str(bound)[:140]})
+
+    def __call__(self, e, v):
+        b = self.info.by_expr.get(e)
+        if b is not None:
+            self.check(b, v, e.format()[:60])
+        return v
 
 
 def run_task(task):
-    raise NotImplementedError
+    from pysym.core import explore
+    from . import tracer
+    import spec.dsl as dsl
+    tier = task.get('tier', 'quick'); t = tv.TIER[tier]
+    dsl.WO = 64
+    p = next(q for q in corpus.P if q['name'] == task['prog'])
+    f, _ = tv.load_program(p)
+    shape = [tuple(c) for c in task['shape']]
+    C = tv.caller_ctx()
+    notes = []
+    try:
+        info = analyse(f, shape, t['CW'], C)
+    except Exception as ex:  # noqa  the analysis does not accept the program / signature: it reports nothing
+        return dict(paths=0, requires=0, cex=[], samples=[], witness={}, notes=['format inference rejected the program: %r' % ex][:1], extra={'programs_rejected_by_format_infer': 1})
+    rt = tv.install_runtime()
+    samples = []
+
+    def setup(e):
+        return (tv.SymArgs(e, shape, t['CW'], C),)
+
+    def run(e, sa):
+        pending = []
+        ck = FormatChecker(info, lambda kind, ok, inf: pending.append((kind, ok, inf)), lambda w: e.cover(w, True), e.W)
+        try:
+            tracer.run_traced(rt, f, sa.build(), C, ck)
+        except Exception:  # noqa  the analysis describes executions in which every operation has a result
+            return
+        for kind, ok, inf in pending:
+            if ok is True:
+                continue
+            e.require(ok if ok is not False else False, info=dict(inf, fact=kind), tag=kind)
+        if len(samples) < 2:
+            samples.append({'task': task['name'], 'facts_decided_on_this_path': len(pending), 'example_arguments': e.model_inputs()})
+    eng = explore(run, setup, W=t['W'], bl_max=t['W'] - 6, max_paths=3000)
+    cexs = []
+    for cx in eng.cex:
+        if cx.get('unknown') or cx.get('inputs') is None:
+            cexs.append({'case': None})
+        else:
+            tt = {k: v for k, v in task.items() if k not in ('name', 'cost')}
+            cexs.append({'case': {'task': tt, 'inputs': cx['inputs'], 'fact': cx.get('tag'), 'info': str(cx.get('info'))[:300]}, 'failed_obligations': cx.get('failed_obligations')})
+    return dict(paths=eng.paths, decisions=eng.decisions, queries=eng.checks, unsat=eng.unsat, sat=eng.sat, unknown=eng.unknown, solve_s=eng.solve_s, requires=eng.requires,
+                aborted=eng.aborted, witness=eng.witness, notes=eng.notes + notes, cex=cexs, samples=samples, extra={'programs_traced': 1})
+
+
+def concrete_violations(task, inputs):
+    """replay: traced run with the real operations on concrete arguments"""
+    from fpy2.interpret import byte
+    from . import tracer
+    import spec.dsl as dsl
+    import z3
+    dsl.WO = 64
+    tier = task.get('tier', 'quick'); t = tv.TIER[tier]
+    p = next(q for q in corpus.P if q['name'] == task['prog'])
+    f, _ = tv.load_program(p)
+    shape = [tuple(c) for c in task['shape']]
+    C = tv.caller_ctx()
+    info = analyse(f, shape, t['CW'], C)
+    bad = []
+
+    def report(kind, ok, inf):
+        if isinstance(ok, z3.ExprRef):
+            ok = z3.is_true(z3.simplify(ok))
+        if ok is not True:
+            bad.append((kind, inf))
+    ck = FormatChecker(info, report, lambda w: None, 64, symbolic=False)
+    args = tv.concrete_args(shape, inputs)
+    try:
+        tracer.run_traced(byte.BytecodeInterpreter(), f, args, C, ck)
+    except Exception:  # noqa
+        return [], args
+    return bad, args
